@@ -800,6 +800,14 @@ func findIndexBase(e Expr, v string, bound map[string]bool) Expr {
 			}
 		case *EDeref:
 			return find(x.X)
+		case *EOld:
+			// old(X[v]): the slice as it was in the old state
+			if r := find(x.X); r != nil {
+				if _, already := r.(*EOld); already {
+					return r
+				}
+				return &EOld{X: r}
+			}
 		case *EQuant:
 			for _, b := range x.Vars {
 				if b.Name == v {
@@ -1079,7 +1087,11 @@ func (g *FuncGen) trCall(env *Env, x *ECall) Val {
 		if a.S == SSlice {
 			ref = fmt.Sprintf("(s_arr %s)", a.T)
 		}
-		return Val{T: fmt.Sprintf("(> %s %s)", c.root(ref), env.old.hwm), S: SBool, GT: types.Typ[types.Bool]}
+		base := env.old.hwm
+		if env.freshBase != nil {
+			base = env.freshBase.hwm // in a ghost statement at a call site: allocated since the CALLER was entered
+		}
+		return Val{T: fmt.Sprintf("(> %s %s)", c.root(ref), base), S: SBool, GT: types.Typ[types.Bool]}
 	case "allocated":
 		a := g.tr(env, x.Args[0])
 		return Val{T: fmt.Sprintf("(and (not (= %s 0)) (<= %s %s))", a.T, c.root(a.T), env.cur.hwm), S: SBool, GT: types.Typ[types.Bool]}
